@@ -19,7 +19,10 @@
 (*                                                                                              *)
 (* Cases (byte strings) are the initial states: every string of length 0..MaxLen whose first    *)
 (* byte falls in this shard, plus the strings of the JSON file CASES_FILE written by the        *)
-(* harness (seeded random strings up to 1 KiB).  The (input -> output) table goes to TABLE_OUT. *)
+(* harness (seeded random strings up to 1 KiB, and strings whose last bytes the harness picked   *)
+(* so that the checksum lands on a boundary value - all ones / zero / sign bit halves ...; what *)
+(* their checksum IS is computed here like for any other string).  The (input -> output) table  *)
+(* goes to TABLE_OUT.                                                                           *)
 EXTENDS Integers, Sequences, SequencesExt, FiniteSets, TLC, Json, IOUtils, Bitwise
 
 CONSTANTS MaxLen,      \* all byte strings of length 0..MaxLen are enumerated
